@@ -156,3 +156,40 @@ package transaction
 //@ func (*Buffer).Clear
 //@   requires b != nil && lockstate(b.mu) == 0
 //@   ensures[C03] len(b.operations) == 0 && b.operations != nil
+
+// ---- C05: the buffer's iterator over the sorted operation list.  Valid iff 0 <= position < len(operations);
+// Seek lands on the first key >= target (binary search over keys ascending).  Known deviation from the
+// Iterator contract, recorded in /verif/known_findings.json: Next from a position < 0 (fresh or exhausted)
+// restarts at the first entry.
+//@ predicate BIValid(it *BufferIterator) = 0 <= it.position && it.position < len(it.operations)
+//@ func (*BufferIterator).Valid
+//@   modifies nothing
+//@   ensures[C05] result == BIValid(it)
+//@ func (*BufferIterator).SeekToFirst
+//@   modifies it.position
+//@   ensures[C05] (len(it.operations) > 0 ==> it.position == 0) && (len(it.operations) == 0 ==> !BIValid(it))
+//@ func (*BufferIterator).SeekToLast
+//@   modifies it.position
+//@   ensures[C05] (len(it.operations) > 0 ==> it.position == len(it.operations) - 1) && (len(it.operations) == 0 ==> !BIValid(it))
+//@ func (*BufferIterator).Next
+//@   modifies it.position
+//@   ensures[C05] old(BIValid(it)) && old(it.position) < len(it.operations) - 1 ==> it.position == old(it.position) + 1 && result
+//@   ensures[C05] old(BIValid(it)) && old(it.position) == len(it.operations) - 1 ==> !BIValid(it) && !result
+//@   ensures[C05] result == BIValid(it)
+//@ func (*BufferIterator).Key
+//@   safety[C05]
+//@   requires forall i int :: 0 <= i && i < len(it.operations) ==> it.operations[i] != nil
+//@   modifies nothing
+//@   ensures[C05] BIValid(it) ==> result == it.operations[it.position].Key
+//@   ensures[C05] !BIValid(it) ==> result == nil
+//@ func (*BufferIterator).Value
+//@   safety[C05]
+//@   requires forall i int :: 0 <= i && i < len(it.operations) ==> it.operations[i] != nil
+//@   modifies nothing
+//@   ensures[C05] BIValid(it) ==> result == it.operations[it.position].Value
+//@   ensures[C05] !BIValid(it) ==> result == nil
+//@ func (*BufferIterator).IsTombstone
+//@   safety[C05]
+//@   requires forall i int :: 0 <= i && i < len(it.operations) ==> it.operations[i] != nil
+//@   modifies nothing
+//@   ensures[C05] result == (BIValid(it) && it.operations[it.position].IsDelete)
